@@ -9,6 +9,8 @@
 #include "XFile.h"
 #include "BitTwiddle.h"
 #include "Archive/ArchiveFile.h"
+#include "Archive/VolFile.h"
+#include <unistd.h>
 #include <algorithm>
 #include <memory>
 #include <map>
@@ -203,22 +205,52 @@ void powerOfTwo(Ctx& ctx, uint64_t from, uint64_t to)
 // do (by file name), then offered to the library's duplicate check: it must refuse exactly the lists holding two names
 // equal ignoring case, wherever the pair ends up - first, middle or last - and every permutation of a duplicate-free
 // list must sort to the same sequence
+// The sort comparator and the duplicate check are protected helpers of ArchiveFile; when they are there they are called
+// directly, otherwise (renamed or folded into their callers) the same lists go through VolFile::CreateArchive with real files.
+template <class A, class = void> struct HasSortHelpers : std::false_type {};
+template <class A> struct HasSortHelpers<A, std::void_t<
+	decltype(A::ComparePathFilenames(std::declval<const std::string&>(), std::declval<const std::string&>())),
+	decltype(A::VerifySortedContainerHasNoDuplicateNames(std::declval<const std::vector<std::string>&>()))>> : std::true_type {};
+
+template <class A> mc::Outcome sortAndVerify(const std::vector<std::string>& names, std::vector<std::string>& sorted)
+{
+	if constexpr (HasSortHelpers<A>::value) {
+		sorted = names;
+		std::sort(sorted.begin(), sorted.end(), A::ComparePathFilenames);
+		return mc::guarded([&] { A::VerifySortedContainerHasNoDuplicateNames(sorted); });
+	}
+	else {
+		sorted.clear();
+		::unlink("o.vol");
+		return mc::guarded([&] {
+			Archive::VolFile::CreateArchive("o.vol", names);
+			Archive::VolFile vol("o.vol");
+			for (std::size_t i = 0; i < vol.GetCount(); ++i) sorted.push_back(vol.GetName(i));
+		});
+	}
+}
+
 void sortAndDuplicates(Ctx& ctx, int maxLen)
 {
 	const std::vector<std::string> pool = { "a", "A", "ab", "aB", "a_", "b", "B.x", "b.X", "z9", "Z9" };
 	auto fold = [](const std::string& x) { std::string r = x; for (auto& c : r) if (c >= 'A' && c <= 'Z') c = char(c + 32); return r; };
 	std::vector<int> idx;
 	uint64_t lists = 0;
+	if (!HasSortHelpers<Archive::ArchiveFile>::value) {
+		ctx.count("binding/fallback-keys");
+		std::string dir = ctx.freshDir("sortdup");
+		if (::chdir(dir.c_str()) != 0) std::abort();
+		for (auto& n : pool) mc::writeFile(n, n.data(), 1);
+	}
 	std::map<std::vector<std::string>, std::vector<std::string>> sortedOf;   // set of names (sorted bytewise) -> sequence after the library sort
 	std::function<void()> rec = [&] {
 		{
 			std::vector<std::string> names; for (int i : idx) names.push_back(pool[i]);
-			std::vector<std::string> sorted = names;
-			std::sort(sorted.begin(), sorted.end(), Archive::ArchiveFile::ComparePathFilenames);
+			std::vector<std::string> sorted;
 			bool dup = false; { std::set<std::string> seen; for (auto& n : names) if (!seen.insert(fold(n)).second) dup = true; }
 			std::string key; for (auto& n : names) key += n + " ";
 			if ((lists & 255) == 0) ctx.sub("names " + key);
-			auto o = mc::guarded([&] { Archive::ArchiveFile::VerifySortedContainerHasNoDuplicateNames(sorted); });
+			auto o = sortAndVerify<Archive::ArchiveFile>(names, sorted);
 			ctx.transition(); ++lists;
 			ctx.count(dup ? "duplicates/lists-with-a-duplicate" : "duplicates/duplicate-free-lists");
 			if (dup && o.cls == 'R') { std::string so; for (auto& n : sorted) so += n + " "; ctx.violation("C19/duplicates/undetected", "names " + key, "sorted as " + so); }
@@ -234,6 +266,7 @@ void sortAndDuplicates(Ctx& ctx, int maxLen)
 		for (int i = 0; i < int(pool.size()); ++i) { idx.push_back(i); rec(); idx.pop_back(); }
 	};
 	rec();
+	if (!HasSortHelpers<Archive::ArchiveFile>::value && ::chdir("/") != 0) std::abort();
 	ctx.state(lists); ctx.trace(lists);
 }
 
